@@ -358,8 +358,8 @@ func init() {
 	register(&Prop{
 		ID: "C09", Engine: "server",
 		Generate: genC09, Decode: decodeC09, Execute: execC09,
-		Config:      func(any) simrt.Config { return simrt.Config{MaxSteps: 200000, IdleProbe: 4 * 1e9} },
-		Runs:        clientRuns(150000, 8000000),
+		Config: func(any) simrt.Config { return simrt.Config{MaxSteps: 60000, IdleProbe: 4 * 1e9} },
+		Runs:   clientRuns(150000, 8000000),
 		Floors: []Floor{{Name: "all-short-batches", Count: c09FloorCount, Scenario: c09FloorScenario},
 			{Name: "header-elements", Count: func(string) int { return len(allHdrs()) * 4 }, Scenario: func(_ string, i int) any {
 				hs := allHdrs()
